@@ -572,6 +572,8 @@ def main(argv: list[str]) -> int:
 
     n_runs = a.runs or int(os.environ.get("VERIF_RUNS") or 0) or (
         mod.runs(a.tier) if hasattr(mod, "runs") else mod.RUNS[a.tier])
+    if os.environ.get("VERIF_SCALE") and not (a.runs or os.environ.get("VERIF_RUNS")):
+        n_runs = max(16, int(n_runs * float(os.environ["VERIF_SCALE"])))  # self-tests only
     budget = a.budget or float(os.environ.get("VERIF_BUDGET_S") or 0) or mod.BUDGET_S[a.tier]
     workers = a.workers or int(os.environ.get("VERIF_WORKERS") or 0) or min(16, os.cpu_count() or 1)
     if hasattr(mod, "prepare"):
